@@ -62,6 +62,8 @@ def finding(fid):
             ae._config = old
         return (not res) and len(written) > 0, {"archive": "tests/resources/archives/test_archive.7z", "max_memory_size": 1}, \
             f"{len(res)} results (all members above the limit) but {len(written)} member files were decompressed and written to disk"
+    if fid == "F30-pdf-mcid-order-list-scan":
+        return amp_pdf_mcid()
     return False, {}, "unknown finding"
 
 
@@ -353,9 +355,253 @@ def amp_xml():
     return False, {}, "entity declarations are refused at both part sizes"
 
 
-AMPLIFIERS = (("rtf_extractor.py::_RtfParser._strip_rtf_full_with_pages/amp-bounded#carve", amp_rtf), ("xls_extractor.py::_extract_images_from_workbook/amp-bounded#carve", amp_xls), ("_extract_png_images_from_bytes/amp-bounded#carve", amp_png), ("_extract_images_from_word_document/amp-bounded#carve", amp_dib),
+def _entity_dtd(root):
+    """DOCTYPE with nested internal entities: &d; expands to 16*16*16*64 = 262144 characters."""
+    a = "A" * 64
+    return (f'<!DOCTYPE {root} [<!ENTITY a "{a}"><!ENTITY b "{"&a;" * 16}"><!ENTITY c "{"&b;" * 16}"><!ENTITY d "{"&c;" * 16}">]>')
+
+
+def xml_entity_parts():
+    """Every XML part a reader looks at may carry a DTD with (nested) internal entities; a hardened parser refuses the declaration,
+    an expanding one multiplies it (measured: tracemalloc peak during the read against the file size)."""
+    import tracemalloc
+    import sharepoint2text
+    MAN = "urn:oasis:names:tc:opendocument:xmlns:manifest:1.0"
+    refs = "&d;" * 12
+    odf_parts = {
+        "META-INF/manifest.xml": lambda dtd: f'<?xml version="1.0"?>{dtd}<manifest:manifest xmlns:manifest="{MAN}"><manifest:file-entry manifest:full-path="/" manifest:media-type="{refs}"/>'
+                                             f'<manifest:file-entry manifest:full-path="content.xml" manifest:media-type="text/xml">{refs}</manifest:file-entry></manifest:manifest>',
+        "meta.xml": lambda dtd: f'<?xml version="1.0"?>{dtd}<office:document-meta {NS} xmlns:meta="urn:oasis:names:tc:opendocument:xmlns:meta:1.0" xmlns:dc="http://purl.org/dc/elements/1.1/">'
+                                f'<office:meta><dc:title>{refs}</dc:title></office:meta></office:document-meta>',
+        "styles.xml": lambda dtd: f'<?xml version="1.0"?>{dtd}<office:document-styles {NS}><office:master-styles><text:p>{refs}</text:p></office:master-styles></office:document-styles>',
+    }
+    docs = []
+    for fmt, mt, body in (("odt", "application/vnd.oasis.opendocument.text", "<office:text><text:p>hello</text:p></office:text>"),
+                          ("ods", "application/vnd.oasis.opendocument.spreadsheet", f'<office:spreadsheet><table:table table:name="S"><table:table-row>{cell("x")}</table:table-row></table:table></office:spreadsheet>'),
+                          ("odp", "application/vnd.oasis.opendocument.presentation", "<office:presentation/>")):
+        base = {"mimetype": mt,
+                "content.xml": f'<?xml version="1.0"?><office:document-content {NS}><office:body>{body}</office:body></office:document-content>',
+                "META-INF/manifest.xml": f'<?xml version="1.0"?><manifest:manifest xmlns:manifest="{MAN}"/>'}
+        for part, build in odf_parts.items():
+            root = {"META-INF/manifest.xml": "manifest:manifest", "meta.xml": "office:document-meta", "styles.xml": "office:document-styles"}[part]
+            docs.append((fmt, f"a.{fmt}", part, dict(base, **{part: build(_entity_dtd(root))})))
+    W = "http://schemas.openxmlformats.org/wordprocessingml/2006/main"
+    ct = ('<Types xmlns="http://schemas.openxmlformats.org/package/2006/content-types"><Default Extension="rels" '
+          'ContentType="application/vnd.openxmlformats-package.relationships+xml"/><Default Extension="xml" ContentType="application/xml"/>'
+          '<Override PartName="/word/document.xml" ContentType="application/vnd.openxmlformats-officedocument.wordprocessingml.document.main+xml"/>{x}</Types>')
+    rels = ('<Relationships xmlns="http://schemas.openxmlformats.org/package/2006/relationships"><Relationship Id="rId1" '
+            'Type="http://schemas.openxmlformats.org/officeDocument/2006/relationships/officeDocument" Target="word/document.xml"/>{x}</Relationships>')
+    docx_base = {"[Content_Types].xml": '<?xml version="1.0"?>' + ct.format(x=""), "_rels/.rels": '<?xml version="1.0"?>' + rels.format(x=""),
+                 "word/document.xml": f'<?xml version="1.0"?><w:document xmlns:w="{W}"><w:body><w:p><w:r><w:t>hello</w:t></w:r></w:p></w:body></w:document>'}
+    docs.append(("docx", "a.docx", "[Content_Types].xml", dict(docx_base, **{"[Content_Types].xml": '<?xml version="1.0"?>' + _entity_dtd("Types") + ct.format(x=f'<Default Extension="x" ContentType="{refs}"/>')})))
+    docs.append(("docx", "a.docx", "_rels/.rels", dict(docx_base, **{"_rels/.rels": '<?xml version="1.0"?>' + _entity_dtd("Relationships") + rels.format(x=f'<Relationship Id="rId9" Type="t" Target="{refs}"/>')})))
+    docs.append(("docx", "a.docx", "word/document.xml", dict(docx_base, **{"word/document.xml": f'<?xml version="1.0"?>{_entity_dtd("w:document")}<w:document xmlns:w="{W}"><w:body><w:p><w:r><w:t>{refs}</w:t></w:r></w:p></w:body></w:document>'})))
+    docs.append(("docx", "a.docx", "docProps/core.xml", dict(docx_base, **{"docProps/core.xml": f'<?xml version="1.0"?>{_entity_dtd("cp:coreProperties")}<cp:coreProperties xmlns:cp="http://schemas.openxmlformats.org/package/2006/metadata/core-properties" xmlns:dc="http://purl.org/dc/elements/1.1/"><dc:title>{refs}</dc:title></cp:coreProperties>'})))
+    last = "entity declarations are refused in every part"
+    for fmt, fname, part, parts in docs:
+        buf = io.BytesIO()
+        with zipfile.ZipFile(buf, "w", zipfile.ZIP_STORED) as z:
+            for name, data in parts.items():
+                z.writestr(name, data)
+        blob = buf.getvalue()
+        try:
+            reader = sharepoint2text.get_extractor(fname)
+        except Exception:  # noqa
+            continue
+        tracemalloc.start()
+        try:
+            try:
+                res = list(reader(io.BytesIO(blob), fname))
+                chars = sum(len(r.get_full_text()) for r in res)
+                got = "accepted"
+            except Exception as e:  # noqa
+                chars, got = 0, type(e).__name__
+            peak = tracemalloc.get_traced_memory()[1]
+        finally:
+            tracemalloc.stop()
+        if got == "accepted" and (peak > 200 * len(blob) or chars > 200 * len(blob)):
+            return True, {"format": fmt, "part_with_entity_declarations": part, "file_bytes": len(blob), "entities": "4 nested levels, &d; = 262144 characters, referenced 12 times per site"}, \
+                f"accepted; peak additional memory {peak} bytes ({peak // len(blob)} x the file), {chars} characters of text"
+        last = f"{fmt}/{part}: {got}, peak {peak} bytes for a {len(blob)}-byte file"
+    return False, {}, last
+
+
+def amp_xml_all():
+    ok, inputs, obs = amp_xml()
+    if ok:
+        return ok, inputs, obs
+    return xml_entity_parts()
+
+
+def amp_ppt_consumers():
+    """Every record-stream consumer of the PPT reader (a module-level function of one bytes argument) on deeply nested containers of
+    each container type and on the same number of sibling containers: run time must scale linearly (x8 input -> well below x24)."""
+    import inspect
+    import struct
+    from sharepoint2text.parsing.extractors.ms_legacy import ppt_extractor as P
+    types = sorted({v for k, v in vars(P).items() if k.startswith("RT_") and isinstance(v, int) and ("CONTAINER" in k or "LIST" in k)} | {0xF002, 0xF003, 0xF004})
+
+    def nested(k, t):
+        return b"".join(struct.pack("<HHI", 0x000F, t, 8 * (k - j - 1)) for j in range(k))
+
+    def mixed(k, _t):
+        return b"".join(struct.pack("<HHI", 0x000F, types[j % len(types)], 8 * (k - j - 1)) for j in range(k))
+    fns = []
+    for name, f in sorted(vars(P).items()):
+        if inspect.isfunction(f) and f.__module__ == P.__name__ and not inspect.isgeneratorfunction(f):
+            try:
+                ps = list(inspect.signature(f).parameters.values())
+            except (TypeError, ValueError):
+                continue
+            req = [p_ for p_ in ps if p_.default is inspect.Parameter.empty and p_.kind in (p_.POSITIONAL_ONLY, p_.POSITIONAL_OR_KEYWORD)]
+            if len(req) == 1 and (req[0].annotation in (bytes, "bytes") or req[0].name == "data"):
+                fns.append((name, f))
+    text_types = sorted(v for k, v in vars(P).items() if k.startswith("RT_TEXT_") and k.endswith("_ATOM") and isinstance(v, int) and "HEADER" not in k) or [0x0FA8]
+    ctx_types = [0] + sorted(v for k, v in vars(P).items() if k in ("RT_SLIDE_CONTAINER", "RT_NOTES_CONTAINER", "RT_MAIN_MASTER_CONTAINER", "RT_SLIDE_LIST_WITH_TEXT") and isinstance(v, int))
+
+    def atoms(k, tc):
+        # k text atoms with pairwise distinct content (a consumer that de-duplicates / joins / searches what it collected so far
+        # does work proportional to the number of atoms already seen), at top level (c == 0) or inside one container of type c
+        t, c = tc
+        enc = (lambda x: x.encode("utf-16-le")) if t == getattr(P, "RT_TEXT_CHARS_ATOM", -1) else (lambda x: x.encode("ascii"))
+        body = b"".join(struct.pack("<HHI", 0, t, len(d)) + d for d in (enc("t%07d" % j) for j in range(k)))
+        return body if c == 0 else struct.pack("<HHI", 0x000F, c, len(body)) + body
+    worst = (False, {}, "every consumer scales linearly")
+    for name, f in fns:
+        for label, build, ts in (("nested containers of one type", nested, types), ("nested containers of alternating types", mixed, [0]),
+                                 ("distinct text atoms (text type, enclosing container type)", atoms, [(t, c) for t in text_types[:2] for c in ctx_types])):
+            for t in ts:
+                def run(data):
+                    try:
+                        f(data)
+                    except Exception:  # noqa
+                        pass
+                try:
+                    a, b, la, lb = _scaling(run, lambda n: build(n, t), 1500, 12000)
+                except RecursionError:
+                    continue
+                ratio = b / max(a, 1e-6)
+                if ratio > 24 and b > 0.5:
+                    return True, {"function": f"ppt_extractor.{name}", "builder": f"{label} ({t if isinstance(t, tuple) else hex(t)}), 1500 and 12000 records"}, \
+                        f"{la} bytes took {a:.3f}s, {lb} bytes took {b:.3f}s (x{ratio:.1f} for x8 input)"
+                if b > worst[2].__len__() * 0 and ratio > 8:
+                    worst = (False, {"function": name}, f"{name}: x{ratio:.1f} for x8 input ({b:.3f}s)")
+    return worst
+
+
+def _mcid_pdf(n):
+    """One-page PDF whose (deflated) content stream opens and closes n marked-content sequences with pairwise distinct MCIDs."""
+    import zlib
+    body = b"".join(b"/P <</MCID %d>> BDC EMC\n" % k for k in range(n))
+    comp = zlib.compress(body, 9)
+    objs = [b"<< /Type /Catalog /Pages 2 0 R >>", b"<< /Type /Pages /Kids [3 0 R] /Count 1 >>",
+            b"<< /Type /Page /Parent 2 0 R /MediaBox [0 0 612 792] /Resources << /XObject << >> >> /Contents 4 0 R >>",
+            b"<< /Length %d /Filter /FlateDecode >>\nstream\n" % len(comp) + comp + b"\nendstream"]
+    out, offs = bytearray(b"%PDF-1.4\n"), []
+    for i, o in enumerate(objs, 1):
+        offs.append(len(out))
+        out += b"%d 0 obj\n" % i + o + b"\nendobj\n"
+    x = len(out)
+    out += b"xref\n0 %d\n" % (len(objs) + 1) + b"0000000000 65535 f \n" + b"".join(b"%010d 00000 n \n" % o for o in offs)
+    out += b"trailer\n<< /Size %d /Root 1 0 R >>\nstartxref\n%d\n%%%%EOF\n" % (len(objs) + 1, x)
+    return bytes(out)
+
+
+def amp_pdf_mcid():
+    """Marked-content bookkeeping of the PDF reader on n sequences with distinct MCIDs.  Deterministic measure: the operator list is
+    handed in through a stand-in for pypdf's ContentStream whose MCIDs are ints that count their `==` comparisons (a list scan per
+    operator compares against everything collected so far); fallback when the reader is not built that way: run time of read_pdf on
+    real one-page files at two sizes."""
+    from sharepoint2text.parsing.extractors.pdf import pdf_extractor as PX
+
+    class CInt(int):
+        count = 0
+
+        def __eq__(self, other):
+            CInt.count += 1
+            return int.__eq__(self, other)
+        __hash__ = int.__hash__
+
+    import inspect
+    used = [False]
+
+    def run(n):
+        ops_ = []
+        for k in range(n):
+            ops_.append((["/P", {"/MCID": CInt(k)}], b"BDC"))
+            ops_.append(([], b"EMC"))
+
+        class Stream:
+            def __init__(self, *a, **k):
+                used[0] = True
+                self.operations = ops_
+
+        class Page:
+            pdf = None
+
+            def get_contents(self):
+                return object()
+        real = PX.ContentStream
+        PX.ContentStream = Stream
+        worst = None
+        try:
+            # every module-level function of one required argument that builds a ContentStream from what it is given
+            for name, f in sorted(vars(PX).items()):
+                if not (inspect.isfunction(f) and f.__module__ == PX.__name__):
+                    continue
+                try:
+                    req = [p_ for p_ in inspect.signature(f).parameters.values() if p_.default is inspect.Parameter.empty and p_.kind in (p_.POSITIONAL_ONLY, p_.POSITIONAL_OR_KEYWORD)]
+                except (TypeError, ValueError):
+                    continue
+                if len(req) != 1:
+                    continue
+                used[0] = False
+                CInt.count = 0
+                try:
+                    r = f(Page())
+                    if inspect.isgenerator(r):
+                        list(r)
+                except Exception:  # noqa
+                    pass
+                if used[0] and (worst is None or CInt.count > worst):
+                    worst = CInt.count
+        finally:
+            PX.ContentStream = real
+        if worst is None:
+            raise ValueError("no function consumed the stand-in stream")
+        return worst
+    try:
+        c1, c2 = run(500), run(2000)
+        inputs = {"builder": "content stream of n marked-content sequences `/P <</MCID k>> BDC EMC` with distinct k (n = 500 and 2000; 24 bytes each before deflate)",
+                  "measure": "number of == comparisons on MCID values in the function that walks the operators (stand-in ContentStream)"}
+        obs = f"{c1} comparisons for 1000 operators, {c2} for 4000 operators ({c2 // 4000} per operator)"
+        if c2 > 50 * 4000 and c2 >= 8 * max(c1, 1):
+            blob = _mcid_pdf(6000)
+            import time
+            t0 = time.perf_counter()
+            try:
+                list(PX.read_pdf(io.BytesIO(blob), "a.pdf"))
+            except Exception:  # noqa
+                pass
+            return True, inputs, obs + f"; read_pdf on a {len(blob)}-byte file with 6000 sequences: {time.perf_counter() - t0:.2f}s (quadratic: x4 sequences -> x16)"
+        return False, inputs, obs
+    except (AttributeError, TypeError, ValueError, IndexError, KeyError):
+        pass
+
+    def read(blob):
+        try:
+            list(PX.read_pdf(io.BytesIO(blob), "a.pdf"))
+        except Exception:  # noqa
+            pass
+    a, b, la, lb = _scaling(read, _mcid_pdf, 4000, 16000)
+    ratio = b / max(a, 1e-6)
+    return (ratio > 9 and b > 1.0), {"builder": "one-page PDF, n marked-content sequences with distinct MCIDs (4000 and 16000)"}, \
+        f"{la} bytes took {a:.3f}s, {lb} bytes took {b:.3f}s (x{ratio:.1f} for x4 sequences)"
+
+
+AMPLIFIERS = (("pdf_extractor.py::*/amp-bounded#list-membership", amp_pdf_mcid), ("ppt_extractor.py::*/amp-bounded#no-rescan", amp_ppt_consumers), ("rtf_extractor.py::_RtfParser._strip_rtf_full_with_pages/amp-bounded#carve", amp_rtf), ("xls_extractor.py::_extract_images_from_workbook/amp-bounded#carve", amp_xls), ("_extract_png_images_from_bytes/amp-bounded#carve", amp_png), ("_extract_images_from_word_document/amp-bounded#carve", amp_dib),
               ("ppt_extractor.py::_iter_records/amp-bounded#carve", amp_ppt), ("ppt_extractor.py::*/amp-bounded#nested-scans", amp_ppt),
-              ("mbox_email_extractor.py::*/amp-bounded#no-self-suffix", amp_mbox), ("policy#xml-parsed", amp_xml))
+              ("mbox_email_extractor.py::*/amp-bounded#no-self-suffix", amp_mbox), ("policy#xml-parsed", amp_xml_all))
 
 
 def _got(fn):
@@ -671,6 +917,20 @@ REPEAT_CLASSES = (
      lambda n: f'<table:table-row>{EMPTY.format(a=_rep("table:number-columns-repeated", n))}{cell("x")}{EMPTY.format(a=_rep("table:number-columns-repeated", n))}{cell("y")}</table:table-row>'),
     ("empty row x number-rows-repeated followed by a row with a value", None,
      lambda n: f'<table:table-row {_rep("table:number-rows-repeated", n)}>{EMPTY.format(a="")}</table:table-row><table:table-row>{cell("x")}</table:table-row>'),
+    ("bare row element (no cell children) x number-rows-repeated followed by a row with a value", None,
+     lambda n: f'<table:table-row {_rep("table:number-rows-repeated", n)}/><table:table-row>{cell("x")}</table:table-row>'),
+    ("row with only covered cells x number-rows-repeated followed by a row with a value", None,
+     lambda n: f'<table:table-row {_rep("table:number-rows-repeated", n)}><table:covered-table-cell/><table:covered-table-cell table:number-columns-repeated="3"/></table:table-row>'
+               f'<table:table-row>{cell("x")}</table:table-row>'),
+    ("value row, then bare rows x number-rows-repeated, then a value row", None,
+     lambda n: f'<table:table-row>{cell("a")}</table:table-row><table:table-row {_rep("table:number-rows-repeated", n)}/><table:table-row>{cell("x")}</table:table-row>'),
+    ("empty rows x number-rows-repeated inside a row group / header rows, then a value", None,
+     lambda n: f'<table:table-header-rows><table:table-row {_rep("table:number-rows-repeated", n)}>{EMPTY.format(a="")}</table:table-row></table:table-header-rows>'
+               f'<table:table-row-group><table:table-row {_rep("table:number-rows-repeated", n)}/><table:table-row>{cell("x")}</table:table-row></table:table-row-group>'),
+    ("covered cells x number-columns-repeated followed by a value", None,
+     lambda n: f'<table:table-row><table:covered-table-cell {_rep("table:number-columns-repeated", n)}/>{cell("x")}</table:table-row>'),
+    ("table:table-column x number-columns-repeated", None,
+     lambda n: f'<table:table-column {_rep("table:number-columns-repeated", n)}/><table:table-row>{cell("x")}</table:table-row>'),
     ("empty cells x columns-repeated in an empty row x rows-repeated, then a value", None,
      lambda n: f'<table:table-row {_rep("table:number-rows-repeated", 400)}>{EMPTY.format(a=_rep("table:number-columns-repeated", n // 100))}</table:table-row>'
                f'<table:table-row>{cell("x")}</table:table-row>'),
